@@ -585,6 +585,7 @@ func syntaxCmd(args []string) error {
 	self, _ := os.Executable()
 	var wk *synWorker
 	served := 0
+	hangs := 0
 	defer func() {
 		if wk != nil {
 			wk.stop()
@@ -597,6 +598,9 @@ func syntaxCmd(args []string) error {
 		_, dup := seen[key]
 		if dup && source != "corpus" {
 			return
+		}
+		if hangs >= 5 {
+			return // enough evidence; every further hanging input would burn cores and minutes
 		}
 		seen[key] = struct{}{}
 		st.Cases++
@@ -619,6 +623,11 @@ func syntaxCmd(args []string) error {
 			fail("C08", src, "lexing/parsing this input crashed or hung the process (a fault outside the parsing goroutine cannot be recovered)")
 			fail("C16", src, "lexing this input crashed or hung the process")
 			return
+		}
+		if strings.HasPrefix(resp, "HANG") || strings.Contains(resp, " ## HANG") {
+			hangs++
+			wk.stop() // the stuck goroutines would keep spinning
+			wk = nil
 		}
 		parts := strings.SplitN(resp, "\t", 3)
 		if len(parts) != 3 {
